@@ -212,11 +212,12 @@ Definition cache_ok (D : disk) (M : mem) : Prop :=
   forall s k oid, aget sk_dec (m_addrs M) (s, k) = Some oid ->
     exists o, nth_error (m_heap M) oid = Some o /\ obj_akey o = k /\ obj_scope o = s /\ acct_field_ok D o.
 
-Definition queue_ok (M : mem) : Prop :=
+Definition queue_ok (D : disk) (M : mem) : Prop :=
   forall s oid b i, In (s, oid, b, i) (m_queue M) ->
     exists ma, nth_error (m_heap M) oid = Some (MKey ma) /\ ma_imported ma = false /\ ma_scope ma = s /\
       dp_branch (ma_path ma) = b /\ dp_index (ma_path ma) = i /\
-      is_some (aget scope_eq_dec (m_scopes M) s) = true.
+      is_some (aget scope_eq_dec (m_scopes M) s) = true /\
+      (exists row, aget sa_dec (d_accts D) (s, dp_iacct (ma_path ma)) = Some row /\ ar_priv row <> None).
 
 Definition pk_ok (D : disk) (M : mem) : Prop :=
   forall s p k, aget sp_dec (m_pk M) (s, p) = Some k ->
@@ -232,7 +233,7 @@ Record InvDM (seed : N) (lk : bool) (D : disk) (M : mem) : Prop := mkInv {
   inv_accts : accts_ok D lk M;
   inv_heap : heap_ok D M;
   inv_cache : cache_ok D M;
-  inv_queue : queue_ok M;
+  inv_queue : queue_ok D M;
   inv_pk : pk_ok D M;
   inv_handles : handles_ok M;
 }.
@@ -317,7 +318,7 @@ Record Inv0 (seed : N) (lk : bool) (st : state) : Prop := mkInv0 {
   i_accts : accts_static (st_disk st) lk (st_mem st);
   i_heap : heap_ok (st_disk st) (st_mem st);
   i_cache : cache_ok (st_disk st) (st_mem st);
-  i_queue : queue_ok (st_mem st);
+  i_queue : queue_ok (st_disk st) (st_mem st);
   i_pk : pk_ok (st_disk st) (st_mem st);
   i_handles : handles_ok (st_mem st);
 }.
@@ -392,9 +393,10 @@ Section prims.
     nth_error (m_heap (st_mem st)) oid = Some (MKey ma) -> ma_imported ma = false -> ma_scope ma = s ->
     dp_branch (ma_path ma) = b -> dp_index (ma_path ma) = i ->
     is_some (aget scope_eq_dec (m_scopes (st_mem st)) s) = true ->
+    (exists row, aget sa_dec (d_accts (st_disk st)) (s, dp_iacct (ma_path ma)) = Some row /\ ar_priv row <> None) ->
     Inv0 seed lk (enqueue st s oid b i) /\ ext st (enqueue st s oid b i).
   Proof.
-    intros I H1 H2 H3 H4 H5 H7. destruct st as [D M]. unf. split.
+    intros I H1 H2 H3 H4 H5 H7 H8. destruct st as [D M]. unf. split.
     - destruct I. constructor; unfinv; try assumption.
       intros s' oid' b' i' H. apply in_app_or in H. destruct H as [H|[H|[]]].
       + apply i_queue0. exact H.
@@ -445,7 +447,7 @@ Section prims.
         rewrite H1 in C1. inversion C1. subst x. destruct (same_shape_akey _ _ H2) as [E1 E2].
         repeat split; try congruence. eapply same_shape_field; eauto.
       + exists x. tauto.
-    - intros s j b i H. destruct (i_queue0 s j b i H) as (ma & Q1 & Q2 & Q3 & Q4 & Q5 & Q7).
+    - intros s j b i H. destruct (i_queue0 s j b i H) as (ma & Q1 & Q2 & Q3 & Q4 & Q5 & Q7 & Q8).
       rewrite nth_error_list_set. destruct (Nat.eqb_spec j oid) as [->|].
       + destruct (Nat.ltb_spec oid (length (m_heap M))); [|lia].
         rewrite H1 in Q1. inversion Q1. subst o. destruct o' as [mb|]; simpl in H2; [|contradiction].
@@ -624,7 +626,7 @@ Section helpers.
       length (m_heap (st_mem st')) = S (length (m_heap (st_mem st))) /\
       st_disk st' = st_disk st /\ m_accts (st_mem st') = m_accts (st_mem st) /\
       m_addrs (st_mem st') = m_addrs (st_mem st) /\
-      m_queue (st_mem st') = (if x_is_private key then m_queue (st_mem st)
+      m_queue (st_mem st') = (if x_is_private key || negb (is_some (ai_enc ai)) then m_queue (st_mem st)
                               else m_queue (st_mem st) ++ [(s, oid, dp_branch path, dp_index path)])).
   Proof.
     intros I Hs Hai Hk Hpriv. unfold key_to_managed.
@@ -642,38 +644,43 @@ Section helpers.
                    new_chain_obj st2 (length (m_heap (st_mem st))) s path
                                  (acct_fmt sch ai (dp_branch path =? internal_branch)) key).
     { intros st2 H2. eexists. split; [exact H2|]. simpl. repeat split; assumption. }
+    pose proof Hai as (row0 & R1 & R2 & R3 & R4 & _).
     assert (Hfresh : forall st2, nth_error (m_heap (st_mem st2)) (length (m_heap (st_mem st))) = Some o ->
                    m_locked (st_mem st2) = m_locked (st_mem st) -> d_accts (st_disk st2) = d_accts (st_disk st) ->
-                   (x_is_private key = false ->
+                   (x_is_private key = false -> ai_enc ai <> None ->
                     In (s, length (m_heap (st_mem st)), dp_branch path, dp_index path) (m_queue (st_mem st2))) ->
                    fresh_ok st2 s (dp_iacct path) (length (m_heap (st_mem st)))).
     { intros st2 H2 H3 H4 H5. exists (set_internal (dp_branch path =? internal_branch) ma).
       split; [exact H2|]. simpl. rewrite F1, F2, F7. splits; try assumption; try reflexivity.
       intros row Hrow Hp. rewrite H3. rewrite H4 in Hrow. simpl. rewrite ?F7, ?F2.
-      destruct Hai as (row' & R1 & R2 & R3 & R4 & _). rewrite R1 in Hrow. inversion Hrow. subst row'.
+      rewrite R1 in Hrow. inversion Hrow. subst row0.
+      assert (He : ai_enc ai <> None) by (rewrite R4; exact Hp).
       destruct (x_is_private key) eqn:Ek; [left; simpl; discriminate|right].
-      split; [|apply H5; reflexivity].
+      split; [|apply H5; [reflexivity|exact He]].
       destruct (m_locked (st_mem st)) eqn:El; [reflexivity|].
-      exfalso. assert (Hx : false = true) by (apply Hpriv; [reflexivity|rewrite R4; exact Hp]). discriminate Hx. }
-    destruct (x_is_private key) eqn:Hp; simpl.
+      exfalso. assert (Hx : false = true) by (apply Hpriv; [reflexivity|exact He]). discriminate Hx. }
+    destruct (x_is_private key || negb (is_some (ai_enc ai))) eqn:Hp; simpl.
     - split; [exact I1|]. split; [exact E1|]. repeat split; try assumption; try congruence.
       + apply Hnew. exact Hnth.
-      + apply Hfresh; try assumption; try congruence. apply (ext_locked _ _ E1).
+      + apply Hfresh; try assumption; try congruence; [apply (ext_locked _ _ E1)|].
+        intros Ek He. rewrite Ek in Hp. simpl in Hp. destruct (ai_enc ai); [discriminate|contradiction].
       + rewrite A2, app_length. simpl. lia.
-    - assert (Hq : Inv0 seed lk (enqueue st1 s (length (m_heap (st_mem st))) (dp_branch path) (dp_index path)) /\
+    - apply orb_false_iff in Hp. destruct Hp as (Hp1 & Hp2). apply negb_false_iff in Hp2.
+      assert (Hq : Inv0 seed lk (enqueue st1 s (length (m_heap (st_mem st))) (dp_branch path) (dp_index path)) /\
                    ext st1 (enqueue st1 s (length (m_heap (st_mem st))) (dp_branch path) (dp_index path))).
       { apply (enqueue_post seed lk st1 s _ _ _ _ I1 Hnth); simpl.
         - exact F5.
         - exact F1.
         - rewrite F2. reflexivity.
         - rewrite F2. reflexivity.
-        - rewrite (ext_mscopes _ _ E1). destruct (In_aget scope_eq_dec _ _ _ Hs) as (v & ->). reflexivity. }
+        - rewrite (ext_mscopes _ _ E1). destruct (In_aget scope_eq_dec _ _ _ Hs) as (v & ->). reflexivity.
+        - rewrite F2, A3. exists row0. split; [exact R1|]. rewrite <- R4. destruct (ai_enc ai); [discriminate|discriminate]. }
       destruct Hq as (I2 & E2). split; [exact I2|]. split; [eapply ext_trans; eauto|].
       repeat split; try (unf; congruence).
       + apply Hnew. unf. exact Hnth.
       + apply Hfresh; unf; try assumption; try congruence.
         * apply (ext_locked _ _ E1).
-        * intros _. rewrite A4. apply in_or_app. right. left. reflexivity.
+        * intros _ _. rewrite A4. apply in_or_app. right. left. reflexivity.
       + unf. rewrite A2, app_length. simpl. lia.
   Qed.
 
@@ -944,7 +951,7 @@ Lemma key_to_managed_disk st s sch key path ai : res_disk st (key_to_managed st 
 Proof.
   unfold key_to_managed. destruct (mk_maddr _ _ _ _ _); [|reflexivity].
   destruct (alloc st _) as [st1 oid] eqn:Ea. unfold alloc in Ea. inversion Ea. subst.
-  destruct (x_is_private key); reflexivity.
+  destruct (x_is_private key || _); reflexivity.
 Qed.
 
 Lemma key_to_managed_accts st s sch key path ai :
@@ -954,7 +961,7 @@ Lemma key_to_managed_accts st s sch key path ai :
 Proof.
   unfold key_to_managed. destruct (mk_maddr _ _ _ _ _); [|reflexivity].
   destruct (alloc st _) as [st1 oid] eqn:Ea. unfold alloc in Ea. inversion Ea. subst.
-  destruct (x_is_private key); reflexivity.
+  destruct (x_is_private key || _); reflexivity.
 Qed.
 
 Lemma load_acct_disk st s sch a : res_disk st (load_acct st s sch a).
@@ -1414,24 +1421,25 @@ Section issue2.
       assert (Hc1 : aget sa_dec (m_accts (st_mem st1)) (s, a) = Some ai) by (rewrite M1; exact Hc).
       assert (Hrow : aget sk_dec (d_addrs (st_disk st1)) (s, k) = Some (RChain a branch idx)).
       { unfold st1. unf. apply aget_aset_eq. }
-      pose proof (load_and_cache_post seed lk st1 s sch k I1 Hl1 Hs1) as Hpost.
-      pose proof (load_and_cache_disk st1 s sch k) as Hdisk.
-      assert (Hacc : match load_and_cache st1 s sch k with
+      assert (Hpost : res_post' seed lk st1 (load_address st1 s sch k) (fun _ _ => True)).
+      { unfold load_address. rewrite Hrow.
+        eapply res_post_weaken'; [apply (row_to_managed_post seed lk st1 s sch k _ I1 Hl1 Hs1 Hrow)|]. auto. }
+      assert (Hdisk : res_disk st1 (load_address st1 s sch k)).
+      { unfold load_address. rewrite Hrow. simpl. apply chain_row_to_managed_disk. }
+      assert (Hacc : match load_address st1 s sch k with
                      | Ok st2 _ | Err st2 _ => m_accts (st_mem st2) = m_accts (st_mem st1) end /\
-                     exists st2 o2, load_and_cache st1 s sch k = Ok st2 o2).
-      { unfold load_and_cache. rewrite Hrow. cbn [row_to_managed].
+                     exists st2 o2, load_address st1 s sch k = Ok st2 o2).
+      { unfold load_address. rewrite Hrow. cbn [row_to_managed].
         pose proof (ai_static_wf _ _ _ _ _ _ (i_disk _ _ _ I1) (i_accts _ _ _ I1 _ _ _ Hc1)) as Hwf.
         destruct (chain_row_to_managed_total st1 s sch a branch idx ai Hc1 Hwf Hb H2) as (st2 & o2 & Hcr).
-        pose proof (chain_row_to_managed_post seed lk st1 s sch a branch idx I1 Hl1 Hs1) as Hp.
-        rewrite Hcr in *. simpl in Hp. destruct Hp as (I2 & E2 & N2 & C2 & F2 & D2 & A2).
-        cbn [bind]. destruct F2 as (o & O1 & O2). unfold heap_get. rewrite O1.
+        rewrite Hcr.
         assert (Hm : m_accts (st_mem st2) = m_accts (st_mem st1)).
         { revert Hcr. unfold chain_row_to_managed, load_acct. rewrite Hc1. cbn [bind]. cbv zeta.
           destruct (derive_key _ _ _ _) as [kk| |]; try discriminate. intros Hk2.
           match type of Hk2 with key_to_managed _ _ _ _ ?p _ = _ =>
             pose proof (key_to_managed_accts st1 s sch kk p ai) as Hq end.
           rewrite Hk2 in Hq. exact Hq. }
-        split; [unf; exact Hm|eauto]. }
+        split; [exact Hm|eauto]. }
       destruct Hacc as (Hacc & st2 & o2 & Hlc). rewrite Hlc in *. simpl in Hpost, Hdisk. cbn [bind].
       destruct Hpost as (I2 & E2 & N2 & _).
       assert (Ho2 : objs_ok st2 rest) by (apply (objs_ok_ext st st2); [exact (ext_trans _ _ _ E1 E2)|exact Hrest]).
@@ -1452,13 +1460,14 @@ Section issue2.
   Lemma cache_objs_post queue objs : forall st,
     Inv0 seed lk st -> In (s, sch) (m_scopes (st_mem st)) ->
     Forall (fun p => chain_obj_at st (fst p) s a branch (snd p) /\ field_at st (fst p)) objs ->
+    (queue = true -> exists row, aget sa_dec (d_accts (st_disk st)) (s, a) = Some row /\ ar_priv row <> None) ->
     let st' := cache_objs st s branch queue objs in
     Inv0 seed lk st' /\ ext st st' /\ st_disk st' = st_disk st /\
     m_heap (st_mem st') = m_heap (st_mem st) /\ m_accts (st_mem st') = m_accts (st_mem st) /\
     m_queue (st_mem st') = m_queue (st_mem st) ++
        (if queue then map (fun p => (s, fst p, branch, snd p)) objs else []).
   Proof.
-    induction objs as [|[oid idx] rest IH]; intros st I Hs Ho; simpl.
+    induction objs as [|[oid idx] rest IH]; intros st I Hs Ho Hqr; simpl.
     - splits; try reflexivity; [exact I|apply ext_refl|destruct queue; rewrite app_nil_r; reflexivity].
     - apply Forall_cons_iff in Ho. destruct Ho as ((H1 & H2) & Hrest). simpl in H1, H2.
       destruct H1 as (ma & row & sch' & coin & C1 & C2 & C3 & C4 & C5 & C6 & C7).
@@ -1471,7 +1480,8 @@ Section issue2.
                    ext st1 (if queue then enqueue st1 s oid branch idx else st1)).
       { destruct queue; [|split; [exact I1|apply ext_refl]].
         apply (enqueue_post seed lk st1 s oid branch idx ma I1); try assumption.
-        unfold st1. unf. destruct (In_aget scope_eq_dec _ _ _ Hs) as (v & ->). reflexivity. }
+        - unfold st1. unf. destruct (In_aget scope_eq_dec _ _ _ Hs) as (v & ->). reflexivity.
+        - rewrite C4. unfold st1. unf. apply Hqr. reflexivity. }
       destruct HQ as (I2 & E2).
       set (st2 := if queue then enqueue st1 s oid branch idx else st1) in *.
       assert (E12 : ext st st2) by (eapply ext_trans; eauto).
@@ -1480,7 +1490,9 @@ Section issue2.
       { rewrite Forall_forall in *. intros p Hp. destruct (Hrest p Hp) as (P1 & (o & P2 & P3)).
         split; [eapply chain_obj_at_ext; eauto|]. exists o. split; [apply (ext_heap _ _ E12); exact P2|].
         eapply acct_field_ok_same; [|exact P3]. apply (ext_accts _ _ E12). }
-      destruct (IH st2 I2 Hs2 Ho2) as (I3 & E3 & D3 & H3 & A3 & Q3).
+      assert (Hqr2 : queue = true -> exists row, aget sa_dec (d_accts (st_disk st2)) (s, a) = Some row /\ ar_priv row <> None).
+      { rewrite (ext_accts _ _ E12). exact Hqr. }
+      destruct (IH st2 I2 Hs2 Ho2 Hqr2) as (I3 & E3 & D3 & H3 & A3 & Q3).
       splits; try assumption.
       + eapply ext_trans; eauto.
       + rewrite D3. unfold st2, st1. destruct queue; unf; reflexivity.
@@ -1576,14 +1588,14 @@ Section next_ext.
     Forall (fun p => chain_obj_at st2 (fst p) s a branch (snd p) /\
                      enc_is st2 (fst p) (x_is_private bk) acct_child) objs ->
     Inv0 seed lk st3 -> ext st2 st3 -> new_fresh st2 st3 ->
-    ai_static (st_disk st3) lk s a ai' ->
+    ai_static (st_disk st3) lk s a ai' -> (queue = true -> ai_enc ai <> None) ->
     let st5 := cache_acct (cache_objs st3 s branch queue objs) s a ai' in
     Inv0 seed lk st5 /\ ext st st5 /\
     ((ai_enc ai <> None -> x_is_private bk = true \/ (m_locked (st_mem st1) = true /\ queue = true)) ->
      new_fresh st st5) /\ new_cached st st5 /\ st_disk st5 = st_disk st3 /\
-    m_accts (st_mem st5) = aset sa_dec (m_accts (st_mem st3)) (s, a) ai'.
+    m_accts (st_mem st5) = aset sa_dec (m_accts (st_mem st3)) (s, a) ai' /\ ext st2 st5.
   Proof.
-    intros E01 N01 I1 Hs Hc Hchild E12 L2 G2 P2 I3 E23 N23 Hai' st5.
+    intros E01 N01 I1 Hs Hc Hchild E12 L2 G2 P2 I3 E23 N23 Hai' Hqe st5.
     assert (E13 : ext st1 st3) by (eapply ext_trans; eauto).
     assert (Hs3 : In (s, sch) (m_scopes (st_mem st3))) by (rewrite (ext_mscopes _ _ E13); exact Hs).
     pose proof (i_accts _ _ _ I1 _ _ _ Hc) as Hai.
@@ -1595,7 +1607,10 @@ Section next_ext.
       rewrite Q3, Q4, (ext_accts _ _ E13) in Hrow.
       destruct Hai as (row0 & R1 & _ & R3 & _). rewrite R1 in Hrow. inversion Hrow. subst row0.
       rewrite M3, Hchild, R3. reflexivity. }
-    destruct (cache_objs_post seed lk s sch a branch queue objs st3 I3 Hs3 Hobjs3) as (I4 & E34 & D4 & H4 & A4 & Q4).
+    assert (Hqr : queue = true -> exists row, aget sa_dec (d_accts (st_disk st3)) (s, a) = Some row /\ ar_priv row <> None).
+    { intros Hq. destruct Hai as (row & R1 & _ & _ & R4 & _). exists row. rewrite (ext_accts _ _ E13).
+      split; [exact R1|]. rewrite <- R4. exact (Hqe Hq). }
+    destruct (cache_objs_post seed lk s sch a branch queue objs st3 I3 Hs3 Hobjs3 Hqr) as (I4 & E34 & D4 & H4 & A4 & Q4).
     set (st4 := cache_objs st3 s branch queue objs) in *.
     assert (Hai4 : ai_static (st_disk st4) lk s a ai') by (rewrite D4; exact Hai').
     destruct (cache_acct_post seed lk st4 s a ai' I4 Hai4) as (I5 & E45).
@@ -1606,7 +1621,8 @@ Section next_ext.
     assert (Q5 : m_queue (st_mem st5) = m_queue (st_mem st4)) by (unfold st5; unf; reflexivity).
     assert (C5 : is_some (aget sa_dec (m_accts (st_mem st5)) (s, a)) = true).
     { unfold st5. unf. rewrite aget_aset_eq. reflexivity. }
-    splits; [exact I5|eapply ext_trans; eauto| | |unfold st5; unf; exact D4|unfold st5; unf; rewrite A4; reflexivity].
+    splits; [exact I5|eapply ext_trans; eauto| | |unfold st5; unf; exact D4|unfold st5; unf; rewrite A4; reflexivity|
+             exact (ext_trans _ _ _ E23 E35)].
     2: { (* the new objects belong to cached accounts *)
       intros oid Ho.
       destruct (Nat.ltb_spec oid (length (m_heap (st_mem st1)))) as [H1|H1].
@@ -1786,10 +1802,13 @@ Section next_ext2.
       rewrite B2, Hak2. unfold use_priv, locked, watch_only. rewrite Hl1, ?Ee. simpl.
       destruct S1 as (row & _ & _ & _ & R4 & _ & _ & R7). rewrite R7, <- R4, ?Ee. reflexivity. }
     rewrite index_range_length in L2, G2.
+    assert (Hqe : locked st3 && negb watch_only = true -> ai_enc ai <> None).
+    { unfold watch_only. intros Hqq. apply andb_true_iff in Hqq. destruct Hqq as (_ & Hqq).
+      destruct (ai_enc ai); [discriminate|discriminate]. }
     destruct (issue_finish seed lk st st1 st2 st3 s sch a ai bk (child_num (x_skey ak)) branch
                            (locked st3 && negb watch_only) objs (N.to_nat n) ai'
-                           E1 N1 I1 Hs1 C1 (f_equal child_num Hak1) E2 L2 G2 P2 I3 E3 N3 Hai')
-      as (I5 & E5 & N5 & _ & D5 & A5).
+                           E1 N1 I1 Hs1 C1 (f_equal child_num Hak1) E2 L2 G2 P2 I3 E3 N3 Hai' Hqe)
+      as (I5 & E5 & N5 & _ & D5 & A5 & E25).
     specialize (N5 Hq).
     set (st5 := cache_acct (cache_objs st3 s branch (locked st3 && negb watch_only) objs) s a ai') in *.
     (* the stored next index *)
@@ -1806,20 +1825,6 @@ Section next_ext2.
         simpl. apply next_plus. exact Hc.
       - intros s' a' i' Hne. unfold disk_next. rewrite X3a by exact Hne. reflexivity. }
     destruct Hnx as (Hnx1 & Hnx2).
-    assert (E25 : ext st2 st5).
-    { eapply ext_trans; [exact E3|]. unfold st5.
-      assert (Hs3 : In (s, sch) (m_scopes (st_mem st3))) by (rewrite (ext_mscopes _ _ E3); exact Hs2).
-      assert (Hf3 : Forall (fun p => chain_obj_at st3 (fst p) s a branch (snd p) /\ field_at st3 (fst p)) objs).
-      { rewrite Forall_forall in *. intros p Hp. destruct (P2 p Hp) as (Q & Qe).
-        destruct S1 as (row & R1 & _ & R3 & _).
-        assert (Hrow2 : aget sa_dec (d_accts (st_disk st2)) (s, a) = Some row) by (rewrite (ext_accts _ _ E2); exact R1).
-        pose proof (field_of_enc_is _ _ _ _ _ _ _ _ _ Qe Q Hrow2) as Hf.
-        split; [exact (chain_obj_at_ext _ _ _ _ _ _ _ E3 Q)|]. apply (field_at_ext _ _ _ E3). apply Hf.
-        rewrite Hak1, R3. reflexivity. }
-      destruct (cache_objs_post seed lk s sch a branch (locked st3 && negb watch_only) objs st3 I3 Hs3 Hf3)
-        as (I4 & E4 & D4 & _).
-      eapply ext_trans; [exact E4|]. apply (cache_acct_post seed lk). exact I4.
-      rewrite D4. exact Hai'. }
     splits; try assumption.
     - (* NextOk *)
       intros s' a' ai0 H0. rewrite A5, A3, C2 in H0. rewrite aget_aset in H0.
@@ -1858,6 +1863,7 @@ Section extend.
   Context (seed : N) (lk : bool).
 
   Lemma extend_addresses_post b st s sch a last internal :
+    b = true ->
     Inv0 seed lk st -> m_locked (st_mem st) = lk -> In (s, sch) (m_scopes (st_mem st)) -> NextOk st ->
     match extend_addresses b st s sch a last internal with
     | Ok st' _ =>
@@ -1868,7 +1874,7 @@ Section extend.
     | Err st' e => Inv0 seed lk st' /\ ext st st' /\ new_fresh st st' /\ NextOk st' /\ st_disk st' = st_disk st
     end.
   Proof.
-    intros I Hl Hs HN. unfold extend_addresses.
+    intros Hbt I Hl Hs HN. unfold extend_addresses.
     pose proof (load_acct_post' seed lk st s sch a I Hl Hs) as HL.
     pose proof (NextOk_load seed lk st s sch a I Hl Hs HN) as HN1.
     pose proof (load_acct_disk st s sch a) as HD.
@@ -1922,10 +1928,13 @@ Section extend.
     { apply ai_static_set_next. destruct S1 as (row & R). exists row.
       rewrite (ext_accts _ _ E3), (ext_accts _ _ E2). exact R. }
     rewrite index_range_length in L2, G2.
+    assert (Hqe : locked st3 && negb watch_only = true -> ai_enc ai <> None).
+    { unfold watch_only. rewrite Hbt. intros Hqq. apply andb_true_iff in Hqq. destruct Hqq as (_ & Hqq).
+      destruct (ai_enc ai); [discriminate|discriminate]. }
     destruct (issue_finish seed lk st st1 st2 st3 s sch a ai bk (child_num (ai_pub ai)) branch
                            (locked st3 && negb watch_only) objs (N.to_nat (last + 1 - next)) ai'
-                           E1 N1 I1 Hs1 C1 eq_refl E2 L2 G2 P2 I3 E3 N3 Hai')
-      as (I5 & E5 & N5 & NC5 & D5 & A5).
+                           E1 N1 I1 Hs1 C1 eq_refl E2 L2 G2 P2 I3 E3 N3 Hai' Hqe)
+      as (I5 & E5 & N5 & NC5 & D5 & A5 & _).
     set (st5 := cache_acct (cache_objs st3 s branch (locked st3 && negb watch_only) objs) s a ai') in *.
     assert (Hbi : (branch =? internal_branch) = internal) by (unfold branch; destruct internal; reflexivity).
     assert (Hnx : disk_next (st_disk st5) s a internal = last + 1 /\
@@ -2237,23 +2246,24 @@ Section locking.
   Context (seed : N).
 
   (** replacing heap, cached accounts and the lock flag consistently *)
-  Lemma Inv0_reheap lk lk' mlk st h' accts' :
+  Lemma Inv0_reheap lk lk' mlk st h' accts' pk' :
     Inv0 seed lk st -> heap_rel (m_heap (st_mem st)) h' ->
+    (forall k v, aget sp_dec pk' k = Some v -> aget sp_dec (m_pk (st_mem st)) k = Some v) ->
     accts_static (st_disk st) lk' (mkMem mlk (m_pass (st_mem st)) (m_scopes (st_mem st)) accts' (m_addrs (st_mem st))
-                                          (m_queue (st_mem st)) (m_pk (st_mem st)) h' (m_handles (st_mem st))) ->
+                                          (m_queue (st_mem st)) pk' h' (m_handles (st_mem st))) ->
     Inv0 seed lk' (mkState (st_disk st)
                            (mkMem mlk (m_pass (st_mem st)) (m_scopes (st_mem st)) accts' (m_addrs (st_mem st))
-                                  (m_queue (st_mem st)) (m_pk (st_mem st)) h' (m_handles (st_mem st)))).
+                                  (m_queue (st_mem st)) pk' h' (m_handles (st_mem st)))).
   Proof.
-    intros I (HL & HR) HA. destruct st as [D M]. destruct I. simpl in *.
-    constructor; unfinv; try assumption.
+    intros I (HL & HR) Hpk HA. destruct st as [D M]. destruct I. simpl in *.
+    constructor; unfinv; try assumption; [| | |intros s p k H; apply i_pk0; apply Hpk; exact H|].
     - intros oid o H. destruct (nth_error (m_heap M) oid) as [o0|] eqn:E.
       + destruct (HR oid o0 E) as (o1 & A1 & _ & _ & A4). rewrite H in A1. inversion A1. subst o1. apply A4. eauto.
       + apply nth_error_None in E. apply nth_error_Some_lt in H. lia.
     - intros s k oid H. destruct (i_cache0 s k oid H) as (o & C1 & C2 & C3 & C4).
       destruct (HR oid o C1) as (o1 & A1 & A2 & _). exists o1. destruct (same_shape_akey _ _ A2) as (E1 & E2).
       splits; try congruence. eapply same_shape_field; eauto.
-    - intros s oid b i H. destruct (i_queue0 s oid b i H) as (ma & Q1 & Q2 & Q3 & Q4 & Q5 & Q6).
+    - intros s oid b i H. destruct (i_queue0 s oid b i H) as (ma & Q1 & Q2 & Q3 & Q4 & Q5 & Q6 & Q7).
       destruct (HR oid _ Q1) as (o1 & A1 & A2 & _). destruct o1 as [mb|]; simpl in A2; [|contradiction].
       destruct A2 as (S1 & S2 & _ & _ & S5 & _). exists mb. rewrite <- S1, <- S2, <- S5. splits; assumption.
     - intros h H. rewrite HL. eauto.
@@ -2270,7 +2280,7 @@ Section locking.
     intros I. unfold lock_all. unf.
     pose proof (lock_heap_rel (m_addrs (st_mem st)) (m_heap (st_mem st))) as HR.
     splits; try reflexivity; try exact HR.
-    apply (Inv0_reheap lk true true st _ _ I HR).
+    apply (Inv0_reheap lk true true st _ _ [] I HR); [intros k v Hk; discriminate|].
     intros s a ai H. simpl in H. rewrite aget_amap in H.
     destruct (aget sa_dec (m_accts (st_mem st)) (s, a)) as [ai0|] eqn:E; [|discriminate]. inversion H. subst ai.
     destruct (i_accts _ _ _ I _ _ _ E) as (row & R1 & R2 & R3 & R4 & R5 & R6 & R7).
@@ -2307,24 +2317,26 @@ Section unlocking.
   Qed.
 
   Lemma derive_queue_post q : forall st,
-    Inv0 seed false st -> HC st -> filled st -> m_queue (st_mem st) = q ->
+    Inv0 seed false st -> HC st -> m_queue (st_mem st) = q ->
     exists st', derive_queue st q = Ok st' tt /\ Inv0 seed false st' /\
       m_queue (st_mem st') = [] /\ st_disk st' = st_disk st /\ m_accts (st_mem st') = m_accts (st_mem st) /\
       m_locked (st_mem st') = m_locked (st_mem st) /\ m_handles (st_mem st') = m_handles (st_mem st) /\
       filled_rel q (m_heap (st_mem st)) (m_heap (st_mem st')).
   Proof.
-    induction q as [|[[[s oid] b] i] rest IH]; intros st I HCst HF Hq.
+    induction q as [|[[[s oid] b] i] rest IH]; intros st I HCst Hq.
     - exists st. simpl. splits; try reflexivity; try assumption. split; [reflexivity|].
       intros j o Ho. exists o. split; [exact Ho|split; [apply same_shape_refl|]].
       destruct o; [split; [tauto|intros ? ? ? []]|reflexivity].
     - assert (Hin : In (s, oid, b, i) (m_queue (st_mem st))) by (rewrite Hq; left; reflexivity).
-      destruct (i_queue _ _ _ I _ _ _ _ Hin) as (ma & Q1 & Q2 & Q3 & Q4 & Q5 & Q6).
+      destruct (i_queue _ _ _ I _ _ _ _ Hin) as (ma & Q1 & Q2 & Q3 & Q4 & Q5 & Q6 & (qrow & Q7 & Q8)).
       cbn [derive_queue]. unfold heap_get. rewrite Q1.
       destruct (aget scope_eq_dec (m_scopes (st_mem st)) s) as [sch|] eqn:Es; [|discriminate].
       pose proof (HCst oid ma Q1 Q2) as Hc. rewrite Q3 in Hc.
       destruct (aget sa_dec (m_accts (st_mem st)) (s, dp_iacct (ma_path ma))) as [ai|] eqn:Ec; [|discriminate].
       unfold load_acct. rewrite Ec. cbn [bind].
-      destruct (ai_priv ai) as [p|] eqn:Ep; [|exfalso; exact (HF _ _ Ec Ep)].
+      destruct (ai_priv ai) as [p|] eqn:Ep.
+      2: { exfalso. destruct (i_accts _ _ _ I _ _ _ Ec) as (row' & R1 & _ & _ & _ & _ & _ & R7).
+           rewrite Q7 in R1. inversion R1. subst row'. rewrite Ep in R7. simpl in R7. congruence. }
       simpl is_some. rewrite (derive_key_priv_ok _ _ _ _ Ep).
       (* the filled object *)
       pose proof (i_accts _ _ _ I _ _ _ Ec) as Hai.
@@ -2357,8 +2369,7 @@ Section unlocking.
         - destruct (Nat.ltb oid (length (m_heap (st_mem st)))); [|discriminate]. inversion Hj. subst mc.
           simpl. apply (HCst oid ma Q1 Q2).
         - apply (HCst j mc Hj Hi). }
-      assert (HF2 : filled st2) by (intros k x Hx; rewrite Ha2 in Hx; eauto).
-      destruct (IH st2 I2 HC2 HF2 Hq2) as (st3 & D3 & I3 & Q3' & K3 & A3 & L3 & H3 & (FL & FR)).
+      destruct (IH st2 I2 HC2 Hq2) as (st3 & D3 & I3 & Q3' & K3 & A3 & L3 & H3 & (FL & FR)).
       exists st3. split; [exact D3|]. splits; try assumption. split.
       + rewrite FL, Hh2. apply length_list_set.
       + intros j o Ho.
@@ -2478,6 +2489,8 @@ Proof.
     destruct o as [ma|]; simpl in *; [|exact Logic.I]. intros Hi row Hrow.
     destruct (i_heap0 oid _ C1) as (_ & Hc). rewrite Hi in Hc. destruct Hc as (row0 & sch & coin & H1 & _).
     pose proof (g_accts _ _ G _ _ H1) as H1'. rewrite Hrow in H1'. inversion H1'. subst row0. apply (C4 Hi row H1).
+  - intros s oid b0 i H. destruct (i_queue0 s oid b0 i H) as (ma & Q1 & Q2 & Q3 & Q4 & Q5 & Q6 & (row & Q7 & Q8)).
+    exists ma. splits; try assumption. exists row. split; [apply (g_accts _ _ G); exact Q7|exact Q8].
   - intros s p k H. destruct (i_pk0 s p k H) as (row & R1 & R2). exists row. split; [apply (g_accts _ _ G); exact R1|exact R2].
 Qed.
 
@@ -2540,6 +2553,26 @@ Definition rinfo_akey (r : rinfo) : akey :=
 Lemma rinfo_desc_akey lkd o r : rinfo_desc lkd o r -> rinfo_akey r = obj_akey o.
 Proof. destruct o; simpl; intros ->; reflexivity. Qed.
 
+(** a reported chain address of an account with a private key carries its
+    private key when the manager is unlocked *)
+Definition rinfo_avail (D : disk) (lkd : bool) (r : rinfo) : Prop :=
+  match r with
+  | RKey i => r_imported i = false -> lkd = false ->
+              forall row, aget sa_dec (d_accts D) (r_scope i, r_iacct i) = Some row -> ar_priv row <> None ->
+                          r_priv i = POk (Priv (skey_of_pub (r_pub i)))
+  | RScr _ _ _ => True
+  end.
+
+Lemma rinfo_desc_avail st oid o r :
+  Avail st -> nth_error (m_heap (st_mem st)) oid = Some o -> rinfo_desc (m_locked (st_mem st)) o r ->
+  rinfo_avail (st_disk st) (m_locked (st_mem st)) r.
+Proof.
+  intros A Ho Hd. destruct o as [ma|sa]; simpl in Hd; subst r; simpl; [|exact Logic.I].
+  intros Hi Hl row Hr Hp. rewrite Hi in Hr. rewrite Hl.
+  destruct (A oid ma row Ho Hi Hr Hp) as [X|(X & _)]; [|congruence].
+  destruct (ma_enc ma); [reflexivity|contradiction].
+Qed.
+
 Section ops.
   Context (seed : N).
 
@@ -2552,7 +2585,8 @@ Section ops.
     m_locked (st_mem st2) = m_locked (st_mem st) /\
     Forall2 (fun oid r => exists o, nth_error (m_heap (st_mem st1)) oid = Some o /\
                                     rinfo_desc (m_locked (st_mem st)) o r /\
-                                    rinfo_ok (st_disk st1) (m_locked (st_mem st)) r)
+                                    rinfo_ok (st_disk st1) (m_locked (st_mem st)) r /\
+                                    (Avail st -> rinfo_avail (st_disk st1) (m_locked (st_mem st)) r))
             oids (snd (report_all st1 oids)).
   Proof.
     intros G I1 E1 N1 X1 Hv st2. unfold st2. clear st2.
@@ -2565,7 +2599,8 @@ Section ops.
     - apply (p_disk _ _ P2).
     - rewrite (p_locked _ _ P2). exact Hl.
     - rewrite Hl in R2. eapply Forall2_imp; [|exact R2]. intros oid r (o & O1 & O2).
-      exists o. splits; try assumption. eapply rinfo_desc_ok; [|exact O2]. apply (i_heap _ _ _ I1 _ _ O1).
+      exists o. splits; try assumption; [eapply rinfo_desc_ok; [|exact O2]; apply (i_heap _ _ _ I1 _ _ O1)|].
+      intros A. rewrite <- Hl in O2 |- *. eapply rinfo_desc_avail; eauto. eapply Avail_grow; eauto.
   Qed.
 End ops.
 
@@ -2606,7 +2641,8 @@ Section ops2.
       (forall s' a' i', (s', a', i') <> (s, a, internal) ->
          disk_next (st_disk st') s' a' i' = disk_next (st_disk st) s' a' i') /\
       Forall2 (fun r idx => rinfo_ok (st_disk st') (m_locked (st_mem st)) r /\ rinfo_field_ok (st_disk st') r /\
-                            chain_report r s a (if internal then internal_branch else external_branch) idx)
+                            chain_report r s a (if internal then internal_branch else external_branch) idx /\
+                            (Avail st -> rinfo_avail (st_disk st') (m_locked (st_mem st)) r))
               rs (index_range (disk_next (st_disk st) s a internal) (N.to_nat n))
     | OutErr _ => st_disk st' = st_disk st
     | _ => False
@@ -2624,18 +2660,18 @@ Section ops2.
       destruct (report_all st1 oids) as [st2 rs] eqn:Er. simpl in *.
       splits; try assumption; try (rewrite K2; assumption).
       pose proof (Forall2_compose _ _ _ _ _ F R2) as FC. eapply Forall2_imp; [|exact FC].
-      intros r idx (oid & (C1 & (o1 & O1 & O2)) & (o & Ho & Hd & Hok)). rewrite K2. splits; [exact Hok| |].
+      intros r idx (oid & (C1 & (o1 & O1 & O2)) & (o & Ho & Hd & Hok & Hav)). rewrite K2. splits; [exact Hok| | |exact Hav].
       + rewrite O1 in Ho. inversion Ho. subst o1. eapply rinfo_desc_field; eauto.
       + eapply chain_report_of; eauto.
     - destruct H as (I1 & E1 & N1 & X1 & D1). simpl.
       splits; [eapply Good_grow; eauto|intros A; eapply Avail_grow; eauto|apply (ext_locked _ _ E1)|exact D1].
   Qed.
 
-  Lemma step_extend b st s a internal last :
+  Lemma step_extend st s a internal last :
     Good seed st ->
-    let st' := fst (step b st (OExtend s a internal last)) in
-    Good seed st' /\ (b = true -> Avail st -> Avail st') /\ m_locked (st_mem st') = m_locked (st_mem st) /\
-    match snd (step b st (OExtend s a internal last)) with
+    let st' := fst (step true st (OExtend s a internal last)) in
+    Good seed st' /\ (Avail st -> Avail st') /\ m_locked (st_mem st') = m_locked (st_mem st) /\
+    match snd (step true st (OExtend s a internal last)) with
     | OutOk =>
       disk_next (st_disk st') s a internal = N.max (disk_next (st_disk st) s a internal) (last + 1) /\
       (forall s' a' i', (s', a', i') <> (s, a, internal) ->
@@ -2647,16 +2683,16 @@ Section ops2.
     intros G. destruct G as (I & NX & HCs). assert (G : Good seed st) by exact (conj I (conj NX HCs)).
     cbn [step]. unfold with_scope.
     destruct (aget scope_eq_dec (m_scopes (st_mem st)) s) as [sch|] eqn:Es; [|simpl; splits; auto].
-    pose proof (extend_addresses_post seed _ b st s sch a last internal I eq_refl (aget_In _ _ _ _ Es) NX) as H.
-    destruct (extend_addresses b st s sch a last internal) as [st1 u|st1 e]; simpl.
+    pose proof (extend_addresses_post seed _ true st s sch a last internal eq_refl I eq_refl (aget_In _ _ _ _ Es) NX) as H.
+    destruct (extend_addresses true st s sch a last internal) as [st1 u|st1 e]; simpl.
     - destruct H as (I1 & E1 & N1 & NC1 & X1 & D1 & D2).
       assert (HC1 : HC st1) by (eapply HC_grow_cached; eauto).
       splits; try assumption.
       + unfold Good. rewrite (ext_locked _ _ E1). splits; assumption.
-      + intros Hb A. eapply Avail_grow; eauto.
+      + intros A. eapply Avail_grow; eauto.
       + apply (ext_locked _ _ E1).
     - destruct H as (I1 & E1 & N1 & X1 & D1).
-      splits; [eapply Good_grow; eauto|intros _ A; eapply Avail_grow; eauto|apply (ext_locked _ _ E1)|exact D1].
+      splits; [eapply Good_grow; eauto|intros A; eapply Avail_grow; eauto|apply (ext_locked _ _ E1)|exact D1].
   Qed.
 End ops2.
 
@@ -2742,7 +2778,7 @@ Section ops3.
     match snd (step b st (OLookup ad)) with
     | OutAddrs [r] =>
       rinfo_ok (st_disk st') (m_locked (st_mem st)) r /\ rinfo_field_ok (st_disk st') r /\
-      rinfo_akey r = addr_key ad
+      rinfo_akey r = addr_key ad /\ (Avail st -> rinfo_avail (st_disk st') (m_locked (st_mem st)) r)
     | OutErr _ => True
     | _ => False
     end.
@@ -2758,11 +2794,11 @@ Section ops3.
       destruct (grow_then_report seed st st1 [oid] G I1 E1 N1 HN Hv) as (G2 & A2 & K2 & L2 & R2).
       cbn [report_all] in G2, A2, K2, L2, R2.
       destruct (report st1 oid) as [st2 r] eqn:Er. simpl in *.
-      inversion R2 as [|? ? ? ? (o & O1 & O2 & O3) Hnil]. subst.
+      inversion R2 as [|? ? ? ? (o & O1 & O2 & O3 & O4) Hnil]. subst.
       destruct F1 as (o' & P1 & P2 & P3 & P4). rewrite O1 in P1. inversion P1. subst o'.
       splits; try assumption; try congruence; try (rewrite K2; exact O3);
         try (rewrite K2; eapply rinfo_desc_field; eauto);
-        try (rewrite (rinfo_desc_akey _ _ _ O2); exact P2).
+        try (rewrite (rinfo_desc_akey _ _ _ O2); exact P2); try (rewrite K2; exact O4).
     - destruct H as (I1 & E1 & N1). simpl.
       splits; [eapply Good_grow; eauto|intros A; eapply Avail_grow; eauto|apply (ext_locked _ _ E1)|exact HD|exact Logic.I].
   Qed.
@@ -2821,7 +2857,8 @@ Section ops4.
     match snd (step b st (ODerive s p)) with
     | OutAddrs [r] =>
       rinfo_ok (st_disk st') (m_locked (st_mem st)) r /\
-      exists i, r = RKey i /\ r_imported i = false /\ r_scope i = s /\ r_path i = p
+      (exists i, r = RKey i /\ r_imported i = false /\ r_scope i = s /\ r_path i = p) /\
+      (Avail st -> rinfo_avail (st_disk st') (m_locked (st_mem st)) r)
     | OutErr _ => True
     | _ => False
     end.
@@ -2877,9 +2914,9 @@ Section ops4.
       destruct (grow_then_report seed st st1 [oid] G I1 E1 N1 HN Hv) as (G2 & A2 & K2 & L2 & R2).
       cbn [report_all] in G2, A2, K2, L2, R2.
       destruct (report st1 oid) as [st2 r] eqn:Er. simpl in *.
-      inversion R2 as [|? ? ? ? (o & O1' & O2 & O3) Hnil]. subst.
+      inversion R2 as [|? ? ? ? (o & O1' & O2 & O3 & O4) Hnil]. subst.
       rewrite O1 in O1'. inversion O1'. subst o.
-      splits; try assumption; try congruence; try (rewrite K2; exact O3).
+      splits; try assumption; try congruence; try (rewrite K2; exact O3); try (rewrite K2; exact O4).
       simpl in O2. subst r. eexists. split; [reflexivity|]. simpl. rewrite M1. simpl. splits; auto.
     - destruct HR as (I1 & E1 & N1). simpl.
       splits; [eapply Good_grow; eauto|intros A; eapply Avail_grow; eauto|apply (ext_locked _ _ E1)|exact HD|exact Logic.I].
@@ -3449,7 +3486,7 @@ Section ops9.
     cbn [report_all] in G4, A4', K4, L4, R4.
     assert (Hr : report st3 oid = (st4, r)) by (unfold st4, r; destruct (report st3 oid); reflexivity).
     rewrite Hr in G4, A4', K4, L4, R4. cbn [fst snd] in G4, A4', K4, L4, R4.
-    inversion R4 as [|? ? ? ? (o' & O1 & O2 & O3) Hnil]. subst. rewrite Hnth3 in O1. inversion O1. subst o'.
+    inversion R4 as [|? ? ? ? (o' & O1 & O2 & O3 & _) Hnil]. subst. rewrite Hnth3 in O1. inversion O1. subst o'.
     rewrite Hl in L4, O2, O3.
     assert (K4a : d_accts (st_disk st4) = d_accts (st_disk st)) by (rewrite K4; apply (ext_accts _ _ E03)).
     assert (K4s : d_scopes (st_disk st4) = d_scopes (st_disk st)) by (rewrite K4; apply (ext_dscopes _ _ E03)).
@@ -3469,7 +3506,8 @@ Section ops10.
     d_accts (st_disk st') = d_accts (st_disk st) /\ d_next (st_disk st') = d_next (st_disk st) /\
     d_scopes (st_disk st') = d_scopes (st_disk st) /\
     match snd (step b st (OImportKey s k)) with
-    | OutAddrs [r] => exists i, r = RKey i /\ r_imported i = true /\ r_pub i = Pub (imp_key k) /\
+    | OutAddrs [r] => rinfo_ok (st_disk st') (m_locked (st_mem st)) r /\
+                      exists i, r = RKey i /\ r_imported i = true /\ r_pub i = Pub (imp_key k) /\
                                 r_priv i = POk (Priv (imp_key k))
     | OutErr _ => True
     | _ => False
@@ -3504,7 +3542,7 @@ Section ops10.
     d_accts (st_disk st') = d_accts (st_disk st) /\ d_next (st_disk st') = d_next (st_disk st) /\
     d_scopes (st_disk st') = d_scopes (st_disk st) /\
     match snd (step b st (OImportScript s sc)) with
-    | OutAddrs [r] => r = RScr s sc (SOk sc)
+    | OutAddrs [r] => rinfo_ok (st_disk st') (m_locked (st_mem st)) r /\ r = RScr s sc (SOk sc)
     | OutErr _ => True
     | _ => False
     end.
@@ -3574,3 +3612,410 @@ Section ops10.
     - apply (step_script seed true st h G); exact A.
   Qed.
 End ops10.
+
+(* ------------------------------------------------------ 8. histories *)
+
+Section init.
+  Context (seed : N).
+
+  (** createManagerKeyScope on a scope that does not exist yet *)
+  Lemma create_scope_ok D s sch :
+    disk_ok seed D -> aget scope_eq_dec (d_scopes D) s = None -> d_addrs D = [] ->
+    disk_ok seed (create_scope true D s sch) /\ d_addrs (create_scope true D s sch) = [].
+  Proof.
+    intros (D1 & D2 & D3 & D4 & D5 & D6 & D7) Es Ha. split; [|exact Ha].
+    set (coin := child (child (d_master D) (fst s) true) (snd s) true).
+    unfold disk_ok, create_scope. unf. splits.
+    - exact D1.
+    - intros s' sch' coin' H. rewrite aget_app in H.
+      destruct (aget scope_eq_dec (d_scopes D) s') as [x|] eqn:E; [inversion H; subst; eauto|].
+      destruct (scope_eq_dec s' s) as [->|]; [|discriminate]. inversion H. subst. unfold coin_key. rewrite D1. reflexivity.
+    - intros s' a' r H. rewrite aget_aset in H. destruct (sa_dec (s', a') (s, 0)) as [E|E].
+      + inversion E. inversion H. subst. splits.
+        * unfold row_ok. simpl. splits; try reflexivity. unfold acct_key, coin_key. rewrite D1. reflexivity.
+        * rewrite aget_app, Es. destruct (scope_eq_dec s s); [reflexivity|contradiction].
+        * rewrite aget_aset_eq. lia.
+      + destruct (D3 s' a' r H) as (X1 & X2 & X3). splits; try assumption.
+        * destruct (aget scope_eq_dec (d_scopes D) s') as [x|] eqn:E'; [|discriminate].
+          rewrite (aget_app_old _ _ _ _ _ _ E'). reflexivity.
+        * rewrite aget_aset. destruct (scope_eq_dec s' s) as [->|]; [|exact X3]. rewrite Es in X2. discriminate.
+    - intros s' k r H. rewrite Ha in H. discriminate.
+    - exact D5.
+    - rewrite map_app. simpl. apply NoDup_snoc; [exact D6|]. exact (aget_None_notin _ _ _ Es).
+    - intros s' l H. rewrite aget_aset in H. destruct (scope_eq_dec s' s) as [->|].
+      + rewrite aget_app, Es. destruct (scope_eq_dec s s); [reflexivity|contradiction].
+      + specialize (D7 s' l H). destruct (aget scope_eq_dec (d_scopes D) s') as [x|] eqn:E'; [|discriminate].
+        rewrite (aget_app_old _ _ _ _ _ _ E'). reflexivity.
+  Qed.
+
+  Lemma fresh_mem_good D : disk_ok seed D -> Good seed (mkState D (fresh_mem D)) /\ Avail (mkState D (fresh_mem D)).
+  Proof.
+    intros HD. split; [|intros oid ma row Hn; destruct oid; discriminate].
+    unfold Good. simpl. splits.
+    - destruct HD as (D1 & D2 & D3 & D4 & D5 & D6 & D7).
+      constructor; unfinv; try (intros; discriminate).
+      + unfold disk_ok. splits; assumption.
+      + intros s sch H. apply in_map_iff in H. destruct H as ([s' [sch' coin]] & E & Hin). simpl in E. inversion E. subst.
+        exists coin. apply NoDup_In_aget; assumption.
+      + intros oid o H. destruct oid; discriminate.
+      + intros s oid b0 i [].
+      + intros h [].
+    - intros s a ai H. discriminate.
+    - intros oid ma H. destruct oid; discriminate.
+  Qed.
+
+  Lemma init_good pass : Good seed (init seed pass) /\ Avail (init seed pass).
+  Proof.
+    unfold init. apply fresh_mem_good.
+    assert (H0 : disk_ok seed (mkDisk (master seed) pass [] [] [] [] []) /\
+                 d_addrs (mkDisk (master seed) pass [] [] [] [] []) = []).
+    { split; [|reflexivity]. unfold disk_ok. simpl. splits; try (intros; discriminate); try reflexivity. constructor. }
+    unfold default_scopes. cbn [fold_left fst snd].
+    destruct H0 as (H0 & A0).
+    destruct (create_scope_ok _ (49, 0) (mkSchema NP2WKH P2WKH) H0 eq_refl A0) as (H1 & A1).
+    destruct (create_scope_ok _ (84, 0) (mkSchema P2WKH P2WKH) H1 eq_refl A1) as (H2 & A2).
+    destruct (create_scope_ok _ (86, 0) (mkSchema P2TR P2TR) H2 eq_refl A2) as (H3 & A3).
+    destruct (create_scope_ok _ (44, 0) (mkSchema P2PKH P2PKH) H3 eq_refl A3) as (H4 & A4).
+    exact H4.
+  Qed.
+End init.
+
+(** states reachable from Create(seed) by admissible operations *)
+Inductive reach (b : bool) (seed pass : N) : state -> Prop :=
+| reach_init : reach b seed pass (init seed pass)
+| reach_step st o : reach b seed pass st -> adm st o = true -> reach b seed pass (fst (step b st o)).
+
+Lemma reach_good b seed pass st : reach b seed pass st -> Good seed st.
+Proof. induction 1; [apply init_good|apply step_good; assumption]. Qed.
+
+Lemma reach_avail seed pass st : reach true seed pass st -> Avail st.
+Proof.
+  induction 1; [apply init_good|]. apply (step_avail seed); try assumption. eapply reach_good; eauto.
+Qed.
+
+(** admissibility of every step of a history *)
+Fixpoint run_adm (b : bool) (st : state) (h : list op) : bool :=
+  match h with
+  | [] => true
+  | o :: h' => adm st o && run_adm b (fst (step b st o)) h'
+  end.
+
+Lemma run_reach b seed pass h : forall st,
+  reach b seed pass st -> run_adm b st h = true -> reach b seed pass (fst (run b st h)).
+Proof.
+  induction h as [|o h IH]; intros st R Ha; simpl in *; [exact R|].
+  apply andb_true_iff in Ha. destruct Ha as (Ha1 & Ha2).
+  destruct (step b st o) as [st1 r] eqn:E. simpl in *.
+  specialize (IH st1). destruct (run b st1 h) as [st2 rs] eqn:E2. simpl in *. apply IH; [|exact Ha2].
+  replace st1 with (fst (step b st o)) by (rewrite E; reflexivity). constructor; assumption.
+Qed.
+
+(* ------------------------------------------------ the statements of C03 *)
+
+Lemma path_skey_unhardened k b i :
+  is_hardened b = false -> is_hardened i = false -> Pub (path_skey k b i) = ckd_pub (ckd_pub (Pub k) b) i.
+Proof. intros Hb Hi. unfold path_skey, raw_child. rewrite Hb, Hi. reflexivity. Qed.
+
+Lemma step_pair b st o : step b st o = (fst (step b st o), snd (step b st o)).
+Proof. destruct (step b st o); reflexivity. Qed.
+
+(** what a state says about the account (s, a): its row and the scope's schema *)
+Definition acct_of (st : state) (s : scope) (a : N) (row : acct_row) (sch : schema) : Prop :=
+  aget sa_dec (d_accts (st_disk st)) (s, a) = Some row /\
+  exists coin, aget scope_eq_dec (d_scopes (st_disk st)) s = Some (sch, coin).
+
+(** a reported chain address names the child branch/index of its account key,
+    in the account's format, with the true path *)
+Definition chain_info_ok (row : acct_row) (sch : schema) (s : scope) (a b idx : N) (i : ainfo) : Prop :=
+  r_imported i = false /\ r_known i = true /\ r_scope i = s /\ r_iacct i = a /\
+  dp_iacct (r_path i) = a /\ dp_branch (r_path i) = b /\ dp_index (r_path i) = idx /\
+  r_internal i = (b =? internal_branch) /\
+  r_pub i = Pub (path_skey (ar_pub row) b idx) /\
+  r_fmt i = row_fmt sch row b.
+
+Section theorems.
+  Context (b : bool) (seed pass : N).
+
+  (** account keys: seed-derived accounts hold m/purpose'/coin'/account',
+      imported accounts hold the imported xpub and no private key *)
+  Theorem account_keys st s a row :
+    reach b seed pass st -> aget sa_dec (d_accts (st_disk st)) (s, a) = Some row ->
+    match ar_kind row with
+    | ADefault => ar_pub row = acct_key seed (fst s) (snd s) a /\ ar_priv row = Some (ar_pub row) /\ ar_schema row = None
+    | AWatchOnly => (exists x cn, ar_pub row = xpub_key x cn) /\ ar_priv row = None
+    end.
+  Proof.
+    intros R H. destruct (reach_good _ _ _ _ R) as (I & _). destruct (i_disk _ _ _ I) as (_ & _ & D3 & _).
+    destruct (D3 s a row H) as (Hr & _). unfold row_ok in Hr. destruct (ar_kind row); tauto.
+  Qed.
+
+  Lemma rinfo_ok_chain D lkd i row sch :
+    rinfo_ok D lkd (RKey i) -> r_imported i = false ->
+    aget sa_dec (d_accts D) (r_scope i, r_iacct i) = Some row ->
+    (exists coin, aget scope_eq_dec (d_scopes D) (r_scope i) = Some (sch, coin)) ->
+    chain_info_ok row sch (r_scope i) (r_iacct i) (dp_branch (r_path i)) (dp_index (r_path i)) i.
+  Proof.
+    simpl. intros (_ & _ & H) Hi Hrow (coin & Hsc). rewrite Hi in H.
+    destruct H as (row' & sch' & coin' & H1 & H2 & H3 & H4 & H5 & H6 & H7).
+    rewrite Hrow in H1. inversion H1. subst row'. rewrite Hsc in H2. inversion H2. subst sch' coin'.
+    unfold chain_info_ok. splits; auto.
+  Qed.
+
+  (** NextExternalAddresses / NextInternalAddresses *)
+  Theorem next_addresses_correct st s a internal n st' rs row sch :
+    reach b seed pass st -> step b st (ONext s a internal n) = (st', OutAddrs rs) ->
+    acct_of st' s a row sch ->
+    let branch := if internal then internal_branch else external_branch in
+    let next := disk_next (st_disk st) s a internal in
+    disk_next (st_disk st') s a internal = next + n /\
+    Forall2 (fun r idx => exists i, r = RKey i /\ chain_info_ok row sch s a branch idx i /\
+                                    dp_acct (r_path i) = child_num (ar_pub row) /\
+                                    r_pub i = ckd_pub (ckd_pub (Pub (ar_pub row)) branch) idx)
+            rs (index_range next (N.to_nat n)).
+  Proof.
+    intros R Hs (Hrow & coin & Hsc). pose proof (reach_good _ _ _ _ R) as G.
+    pose proof (step_next seed b st s a internal n G) as H. rewrite Hs in H. cbn [fst snd] in H.
+    destruct H as (G' & _ & _ & H1 & H2 & H3). cbv zeta. split; [exact H1|].
+    (* all indices are below 2^31 *)
+    assert (Hb : disk_next (st_disk st') s a internal <= hardened_start).
+    { destruct G' as (I' & _). destruct (i_disk _ _ _ I') as (_ & _ & _ & _ & D5 & _).
+      unfold disk_next. destruct (aget sab_dec (d_next (st_disk st')) (s, a, internal)) eqn:E; [eauto|].
+      unfold hardened_start. lia. }
+    assert (Hidx : forall idx, In idx (index_range (disk_next (st_disk st) s a internal) (N.to_nat n)) ->
+                               is_hardened idx = false).
+    { intros idx Hin. apply index_range_In in Hin. rewrite N2Nat.id in Hin. unfold is_hardened. apply N.leb_gt. lia. }
+    clear H1 H2 Hs. induction H3 as [|r idx rs' idxs (Hok & Hf & (i & -> & Hi & Hsx & Ha & Hp) & _) Hrest IH];
+      constructor; [|apply IH; intros; apply Hidx; right; assumption].
+    exists i. split; [reflexivity|]. subst.
+    pose proof (rinfo_ok_chain _ _ i row sch Hok Hi Hrow (ex_intro _ coin Hsc)) as C.
+    rewrite Hp in C. simpl in C. rewrite Hp. simpl.
+    splits; [exact C|exact (Hf Hi row Hrow)|].
+    destruct C as (_ & _ & _ & _ & _ & _ & _ & _ & C9 & _). rewrite C9.
+    apply path_skey_unhardened; [destruct internal; reflexivity|apply Hidx; left; reflexivity].
+  Qed.
+
+  (** Manager.Address: the managed address found for [ad] stands for the same
+      address; a chain address is the child of its account key at the
+      reported, true path *)
+  Theorem lookup_correct st ad st' r :
+    reach b seed pass st -> step b st (OLookup ad) = (st', OutAddrs [r]) ->
+    rinfo_akey r = addr_key ad /\
+    forall i row sch, r = RKey i -> r_imported i = false -> acct_of st' (r_scope i) (r_iacct i) row sch ->
+      chain_info_ok row sch (r_scope i) (r_iacct i) (dp_branch (r_path i)) (dp_index (r_path i)) i /\
+      dp_acct (r_path i) = child_num (ar_pub row).
+  Proof.
+    intros R Hs. pose proof (reach_good _ _ _ _ R) as G.
+    pose proof (step_lookup seed b st ad G) as H. rewrite Hs in H. cbn [fst snd] in H.
+    destruct H as (_ & _ & _ & _ & H1 & H2 & H3 & _). split; [exact H3|].
+    intros i row sch -> Hi (Hrow & Hsc). split; [eapply rinfo_ok_chain; eauto|exact (H2 Hi row Hrow)].
+  Qed.
+
+  (** DeriveFromKeyPath: the derived address is the child of the account key
+      at the requested branch/index and reports the requested path *)
+  Theorem derive_correct st s p st' r row sch :
+    reach b seed pass st -> step b st (ODerive s p) = (st', OutAddrs [r]) ->
+    acct_of st' s (dp_iacct p) row sch ->
+    exists i, r = RKey i /\ r_path i = p /\ chain_info_ok row sch s (dp_iacct p) (dp_branch p) (dp_index p) i.
+  Proof.
+    intros R Hs (Hrow & Hsc). pose proof (reach_good _ _ _ _ R) as G.
+    pose proof (step_derive seed b st s p G) as H. rewrite Hs in H. cbn [fst snd] in H.
+    destruct H as (_ & _ & _ & _ & H1 & (i & -> & Hi & Hsx & Hp) & _). exists i. splits; auto.
+    assert (Hia : r_iacct i = dp_iacct p).
+    { simpl in H1. destruct H1 as (_ & _ & H1). rewrite Hi in H1. destruct H1 as (? & ? & ? & _ & _ & _ & E & _). congruence. }
+    pose proof (rinfo_ok_chain _ _ i row sch H1 Hi) as C. rewrite Hsx, Hia in C. specialize (C Hrow Hsc).
+    rewrite Hp in C. exact C.
+  Qed.
+
+  (** a private key that is returned is never a wrong one (any source version) *)
+  Theorem priv_never_wrong st o st' rs i k :
+    reach b seed pass st -> adm st o = true -> step b st o = (st', OutAddrs rs) -> In (RKey i) rs ->
+    (match o with ONext _ _ _ _ | OLookup _ | ODerive _ _ | OImportKey _ _ => True | _ => False end) ->
+    r_priv i = POk k -> pub_of_priv k = r_pub i.
+  Proof.
+    intros R Ha Hs Hin Hop Hk. pose proof (reach_good _ _ _ _ R) as G.
+    assert (Hok : rinfo_ok (st_disk st') (m_locked (st_mem st)) (RKey i)).
+    { destruct o; try contradiction.
+      - pose proof (step_next seed b st s a internal n G) as H. rewrite Hs in H. cbn [fst snd] in H.
+        destruct H as (_ & _ & _ & _ & _ & H3). clear - H3 Hin. induction H3; [contradiction|].
+        destruct Hin as [<-|Hin]; [tauto|auto].
+      - pose proof (step_lookup seed b st ad G) as H. rewrite Hs in H. cbn [fst snd] in H.
+        destruct H as (_ & _ & _ & _ & H).
+        destruct rs as [|r [|]]; try contradiction. destruct Hin as [<-|[]]. tauto.
+      - pose proof (step_derive seed b st s p G) as H. rewrite Hs in H. cbn [fst snd] in H.
+        destruct H as (_ & _ & _ & _ & H).
+        destruct rs as [|r [|]]; try contradiction. destruct Hin as [<-|[]]. tauto.
+      - pose proof (step_importkey seed b st s k0 G) as H. rewrite Hs in H. cbn [fst snd] in H.
+        destruct H as (_ & _ & _ & _ & _ & _ & H).
+        destruct rs as [|r [|]]; try contradiction. destruct Hin as [<-|[]]. tauto. }
+    simpl in Hok. destruct Hok as (H & _). rewrite (H k Hk). destruct (r_pub i). reflexivity.
+  Qed.
+
+  (** the stored next index of an existing account only changes by issuing:
+      ONext adds n, OExtend raises it to last + 1, nothing else touches it *)
+  Theorem index_frame st o s a i row :
+    reach b seed pass st -> adm st o = true -> aget sa_dec (d_accts (st_disk st)) (s, a) = Some row ->
+    disk_next (st_disk (fst (step b st o))) s a i =
+    match o, snd (step b st o) with
+    | ONext s' a' i' n, OutAddrs _ =>
+      if sab_dec (s, a, i) (s', a', i') then disk_next (st_disk st) s a i + n else disk_next (st_disk st) s a i
+    | OExtend s' a' i' last, OutOk =>
+      if sab_dec (s, a, i) (s', a', i') then N.max (disk_next (st_disk st) s a i) (last + 1)
+      else disk_next (st_disk st) s a i
+    | _, _ => disk_next (st_disk st) s a i
+    end.
+  Proof.
+    intros R Ha Hrow. pose proof (reach_good _ _ _ _ R) as G.
+    destruct o.
+    - destruct (step_open seed b st G) as (_ & _ & H). rewrite H. reflexivity.
+    - destruct (step_unlock seed b st pass0 G) as (_ & _ & H). rewrite H. reflexivity.
+    - destruct (step_lock seed b st G) as (_ & _ & H). rewrite H. reflexivity.
+    - cbn [step]. destruct (negb (old =? m_pass (st_mem st))); reflexivity.
+    - destruct (step_newscope seed b st s0 sch G) as (_ & _ & _ & _ & H). exact (H (s, a, i)).
+    - destruct (step_newaccount seed b st s0 name G Ha) as (_ & _ & _ & _ & H). exact (H s a i row Hrow).
+    - destruct (step_importxpub seed b st s0 name x cn fp sch G Ha) as (_ & _ & _ & _ & H). exact (H s a i row Hrow).
+    - destruct (step_next seed b st s0 a0 internal n G) as (_ & _ & _ & H).
+      destruct (snd (step b st (ONext s0 a0 internal n))) eqn:E; try contradiction; [rewrite H; reflexivity|].
+      destruct H as (H1 & H2 & _). destruct (sab_dec (s, a, i) (s0, a0, internal)) as [Heq|Hne].
+      + inversion Heq. subst. exact H1.
+      + apply H2. exact Hne.
+    - destruct (step_extend seed b st s0 a0 internal last G) as (_ & _ & _ & H).
+      destruct (snd (step b st (OExtend s0 a0 internal last))) eqn:E; try contradiction; [|rewrite H; reflexivity].
+      destruct H as (H1 & H2). destruct (sab_dec (s, a, i) (s0, a0, internal)) as [Heq|Hne].
+      + inversion Heq. subst. exact H1.
+      + apply H2. exact Hne.
+    - destruct (step_lookup seed b st ad G) as (_ & _ & _ & H & _). rewrite H. reflexivity.
+    - destruct (step_markused seed b st ad G) as (_ & _ & _ & H). rewrite H. reflexivity.
+    - destruct (step_derive seed b st s0 p G) as (_ & _ & _ & H & _). rewrite H. reflexivity.
+    - destruct (step_derivecache seed b st s0 p G) as (_ & _ & _ & H & _). rewrite H. reflexivity.
+    - destruct (step_importkey seed b st s0 k G) as (_ & _ & _ & _ & H & _). unfold disk_next. rewrite H. reflexivity.
+    - destruct (step_importscript seed b st s0 sc G) as (_ & _ & _ & _ & H & _). unfold disk_next. rewrite H. reflexivity.
+    - destruct (step_props seed b st s0 a0 G) as (_ & _ & _ & H & _). rewrite H. reflexivity.
+    - destruct (step_priv seed b st h G) as (_ & _ & _ & H & _). rewrite H. reflexivity.
+    - destruct (step_script seed b st h G) as (_ & _ & _ & H & _). rewrite H. reflexivity.
+  Qed.
+End theorems.
+
+(** Private keys, for the source version in which extendAddresses uses the
+    same watch-only test as nextAddresses ([extend_priv] = true). *)
+Section priv_theorems.
+  Context (seed pass : N).
+
+  (** an address object the caller holds *)
+  Definition handle_obj (st : state) (h : nat) (ma : maddr) : Prop :=
+    exists oid, nth_error (m_handles (st_mem st)) h = Some oid /\
+                nth_error (m_heap (st_mem st)) oid = Some (MKey ma).
+
+  (** every such object is the child of its account key (chain addresses) or an
+      imported key, and any key stored in it is the key of its public key *)
+  Theorem handle_obj_ok b st h ma :
+    reach b seed pass st -> handle_obj st h ma ->
+    if ma_imported ma then exists k, ma_pub ma = Pub (imp_key k)
+    else exists row sch, acct_of st (ma_scope ma) (dp_iacct (ma_path ma)) row sch /\
+           ma_pub ma = Pub (path_skey (ar_pub row) (dp_branch (ma_path ma)) (dp_index (ma_path ma))) /\
+           ma_fmt ma = row_fmt sch row (dp_branch (ma_path ma)).
+  Proof.
+    intros R (oid & _ & Ho). destruct (reach_good _ _ _ _ R) as (I & _).
+    destruct (i_heap _ _ _ I _ _ Ho) as (_ & H). destruct (ma_imported ma).
+    - destruct H as (n & _ & _ & H1 & _). eauto.
+    - destruct H as (row & sch & coin & H1 & H2 & H3 & H4 & _). exists row, sch. unfold acct_of. eauto.
+  Qed.
+
+  (** PrivKey() on any held address of an account that has a private key, or
+      on an imported key, returns exactly the private key of its public key
+      whenever the manager is unlocked *)
+  Theorem priv_key_available st h ma :
+    reach true seed pass st -> handle_obj st h ma -> m_locked (st_mem st) = false ->
+    (ma_imported ma = false ->
+     exists row, aget sa_dec (d_accts (st_disk st)) (ma_scope ma, dp_iacct (ma_path ma)) = Some row /\
+                 ar_priv row <> None) ->
+    snd (step true st (OPriv h)) = OutKey (Priv (skey_of_pub (ma_pub ma))).
+  Proof.
+    intros R (oid & Hh & Ho) Hl Hrow. pose proof (reach_good _ _ _ _ R) as G. pose proof (reach_avail _ _ _ R) as A.
+    destruct (step_priv seed true st h G) as (_ & _ & _ & _ & H). rewrite (H oid ma Hh Ho), Hl.
+    destruct G as (I & _). destruct (i_heap _ _ _ I _ _ Ho) as (_ & Hobj).
+    destruct (ma_imported ma) eqn:Ei.
+    - destruct Hobj as (n & _ & _ & _ & E & _). rewrite E. reflexivity.
+    - destruct (Hrow eq_refl) as (row & Hr & Hp).
+      destruct (A oid ma row Ho Ei Hr Hp) as [X|(X & _)]; [|congruence].
+      destruct (ma_enc ma); [reflexivity|contradiction].
+  Qed.
+
+  (** the addresses an operation hands out while unlocked already carry their
+      private key (just issued / looked up / derived / reloaded after restart) *)
+  Theorem reported_priv_available st o st' rs i row :
+    reach true seed pass st -> adm st o = true -> step true st o = (st', OutAddrs rs) -> In (RKey i) rs ->
+    (match o with ONext _ _ _ _ | OLookup _ | ODerive _ _ => True | _ => False end) ->
+    m_locked (st_mem st) = false -> r_imported i = false ->
+    aget sa_dec (d_accts (st_disk st')) (r_scope i, r_iacct i) = Some row -> ar_priv row <> None ->
+    r_priv i = POk (Priv (skey_of_pub (r_pub i))).
+  Proof.
+    intros R Ha Hs Hin Hop Hl Hi Hrow Hp. pose proof (reach_good _ _ _ _ R) as G. pose proof (reach_avail _ _ _ R) as A.
+    assert (Hav : rinfo_avail (st_disk st') (m_locked (st_mem st)) (RKey i)).
+    { destruct o; try contradiction.
+      - pose proof (step_next seed true st s a internal n G) as H. rewrite Hs in H. cbn [fst snd] in H.
+        destruct H as (_ & _ & _ & _ & _ & H3). clear - H3 Hin A. induction H3; [contradiction|].
+        destruct Hin as [<-|Hin]; [tauto|auto].
+      - pose proof (step_lookup seed true st ad G) as H. rewrite Hs in H. cbn [fst snd] in H.
+        destruct H as (_ & _ & _ & _ & H).
+        destruct rs as [|r [|]]; try contradiction. destruct Hin as [<-|[]]. tauto.
+      - pose proof (step_derive seed true st s p G) as H. rewrite Hs in H. cbn [fst snd] in H.
+        destruct H as (_ & _ & _ & _ & H).
+        destruct rs as [|r [|]]; try contradiction. destruct Hin as [<-|[]]. tauto. }
+    exact (Hav Hi Hl row Hrow Hp).
+  Qed.
+
+  (** imported private keys and scripts come back unchanged *)
+  Theorem imported_key_unchanged b st s k st' rs :
+    reach b seed pass st -> step b st (OImportKey s k) = (st', OutAddrs rs) ->
+    exists i, rs = [RKey i] /\ r_imported i = true /\ r_pub i = Pub (imp_key k) /\ r_priv i = POk (Priv (imp_key k)).
+  Proof.
+    intros R Hs. pose proof (reach_good _ _ _ _ R) as G.
+    pose proof (step_importkey seed b st s k G) as H. rewrite Hs in H. cbn [fst snd] in H.
+    destruct H as (_ & _ & _ & _ & _ & _ & H). destruct rs as [|r [|]]; try contradiction.
+    destruct H as (_ & i & -> & H). eauto.
+  Qed.
+
+  Theorem imported_key_later b st ad st' i :
+    reach b seed pass st -> step b st (OLookup ad) = (st', OutAddrs [RKey i]) -> r_imported i = true ->
+    exists k, r_pub i = Pub (imp_key k) /\ addr_key (AKey (r_fmt i) (Pub (imp_key k))) = addr_key ad /\
+              (m_locked (st_mem st) = false -> r_priv i = POk (Priv (imp_key k))).
+  Proof.
+    intros R Hs Hi. pose proof (reach_good _ _ _ _ R) as G.
+    pose proof (step_lookup seed b st ad G) as H. rewrite Hs in H. cbn [fst snd] in H.
+    destruct H as (_ & _ & _ & _ & H1 & _ & H3 & _). simpl in H1. rewrite Hi in H1.
+    destruct H1 as (_ & _ & n & P1 & _ & _ & P4). exists n. simpl in H3. rewrite P1 in H3. auto.
+  Qed.
+
+  Theorem imported_script_unchanged b st s sc st' rs :
+    reach b seed pass st -> step b st (OImportScript s sc) = (st', OutAddrs rs) -> rs = [RScr s sc (SOk sc)].
+  Proof.
+    intros R Hs. pose proof (reach_good _ _ _ _ R) as G.
+    pose proof (step_importscript seed b st s sc G) as H. rewrite Hs in H. cbn [fst snd] in H.
+    destruct H as (_ & _ & _ & _ & _ & _ & H). destruct rs as [|r [|]]; try contradiction.
+    destruct H as (_ & ->). reflexivity.
+  Qed.
+
+  Theorem script_later b st h oid sa :
+    reach b seed pass st -> nth_error (m_handles (st_mem st)) h = Some oid ->
+    nth_error (m_heap (st_mem st)) oid = Some (MScript sa) -> m_locked (st_mem st) = false ->
+    snd (step b st (OScript h)) = OutScript (sa_script sa).
+  Proof.
+    intros R Hh Ho Hl. pose proof (reach_good _ _ _ _ R) as G.
+    destruct (step_script seed b st h G) as (_ & _ & _ & _ & H). rewrite (H oid sa Hh Ho), Hl. reflexivity.
+  Qed.
+End priv_theorems.
+
+(** Two wallets created from the same seed (any passphrases, any histories,
+    any source version) agree on the key of every seed-derived account,
+    branch and index, hence on the address whenever the formats agree. *)
+Theorem same_seed_same_keys b1 b2 seed pass1 pass2 st1 st2 s a row1 row2 :
+  reach b1 seed pass1 st1 -> reach b2 seed pass2 st2 ->
+  aget sa_dec (d_accts (st_disk st1)) (s, a) = Some row1 -> aget sa_dec (d_accts (st_disk st2)) (s, a) = Some row2 ->
+  ar_kind row1 = ADefault -> ar_kind row2 = ADefault ->
+  ar_pub row1 = ar_pub row2 /\ row_fmt (mkSchema P2PKH P2PKH) row1 = row_fmt (mkSchema P2PKH P2PKH) row2.
+Proof.
+  intros R1 R2 H1 H2 K1 K2.
+  pose proof (account_keys _ _ _ _ _ _ _ R1 H1) as A1. pose proof (account_keys _ _ _ _ _ _ _ R2 H2) as A2.
+  rewrite K1 in A1. rewrite K2 in A2. destruct A1 as (E1 & _ & S1). destruct A2 as (E2 & _ & S2).
+  split; [congruence|]. unfold row_fmt. rewrite S1, S2. reflexivity.
+Qed.
